@@ -7,7 +7,7 @@
     the property (add inserts pairs, update replaces all values of the given keys, rm removes the
     given pairs / keys), read as a set of (entity, key, value). *)
 From Coq Require Import List Arith Bool PeanoNat Lia.
-From RV Require Import Model.Tags Proofs.TagsBase Proofs.TagsInv Proofs.TagsSweep.
+From RV Require Import Model.Tags Proofs.TagsBase Proofs.TagsInv Proofs.TagsFull Proofs.TagsSweep Proofs.TagsRefine.
 Import ListNotations.
 Open Scope list_scope.
 
@@ -22,104 +22,91 @@ Proof. intros g ops s H. apply LI_acyclic. exact (run_LI g ops init s LI_init H)
 Theorem C24_walk_terminates : forall g ops, exists s, run g init ops = Some s.
 Proof. intros g ops. exact (run_total g ops init LI_init). Qed.
 
+(** In every reachable table (all variants, all histories, no bound) the TagEdit rows are exactly
+    the parent links of the tags, and a tag version is current iff nothing supersedes it. *)
+Theorem C24_current_iff_not_superseded : forall g ops s, run g init ops = Some s ->
+  (forall p c, In (p, c) (edits s) <-> exists r, nth_error (rows s) c = Some r /\ In p (r_par r)) /\
+  (forall i r, nth_error (rows s) i = Some r -> (r_cur r = false <-> superseded s i = true)).
+Proof.
+  intros g ops s H. destruct (run_LI g ops init s LI_init H) as [W E].
+  destruct (run_FI g ops init s LI_init FI_init H) as [E' C]. split; [|exact C].
+  intros p c. split; [apply E|]. intros [r [H1 H2]]. eapply E'; eassumption.
+Qed.
+
 (** What a variant needs from a history (see [op_okb]): as shipped, no command names a pair twice and
     no `rm` names a pair whose value is null; the repaired variant needs nothing. *)
 Definition ok_for (g : cfg) (ops : list op) : Prop := Forall (fun o => op_okb g o = true) ops.
+
+(** THE REFINEMENT (no bound on histories, entities, keys, values, pairs per command; any variant):
+    after any history the variant can take, no command has failed with a database error and the
+    current tags of every entity are exactly the pairs of the key-value model
+    (add inserts pairs, update replaces all values of the given keys, rm removes pairs / keys). *)
+Theorem C24_refines_set : forall g ops s, ok_for g ops -> run g init ops = Some s ->
+  (forall e k v, In (k, v) (cur_pairs s e) <-> spec_has (spec_run ops) e k v = true) /\
+  ~ In 1 (run_log g init ops).
+Proof.
+  intros g ops s Hok Hrun.
+  destruct (run_refines g ops init [] s Good_init agree_init Hok Hrun) as [_ [A L]]. split; [|exact L].
+  intros e k v. rewrite cur_pairs_curc. apply A.
+Qed.
+
+Lemma fixed_ok_for_all : forall ops, ok_for fixed ops.
+Proof. intros ops. apply Forall_forall. intros [? ?|? ?|? ? ?] _; reflexivity. Qed.
+
+(** The repaired code satisfies the property on every history. *)
+Theorem C24_refines_set_fixed : forall ops, exists s, run fixed init ops = Some s /\
+  (forall e k v, In (k, v) (cur_pairs s e) <-> spec_has (spec_run ops) e k v = true) /\
+  ~ In 1 (run_log fixed init ops).
+Proof.
+  intros ops. destruct (C24_walk_terminates fixed ops) as [s H]. exists s. split; [assumption|].
+  exact (C24_refines_set fixed ops s (fixed_ok_for_all ops) H).
+Qed.
+
+(** The code as shipped satisfies it, as a set of pairs, on every history that never names a pair
+    twice in one command and never removes a pair whose value is null (the listing may still repeat
+    a pair: [C24_dup_listing_refuted]). *)
+Theorem C24_refines_set_shipped_partial : forall ops, ok_for shipped ops ->
+  exists s, run shipped init ops = Some s /\
+  (forall e k v, In (k, v) (cur_pairs s e) <-> spec_has (spec_run ops) e k v = true) /\
+  ~ In 1 (run_log shipped init ops).
+Proof.
+  intros ops Hok. destruct (C24_walk_terminates shipped ops) as [s H]. exists s. split; [assumption|].
+  exact (C24_refines_set shipped ops s Hok H).
+Qed.
+
+(** Re-adding a deleted pair makes it current again: any variant, after any history it can take. *)
+Theorem C24_readd_after_delete : forall g ops e k v, ok_for g ops ->
+  null_match g = true \/ v <> VNull ->
+  exists s, run g init (ops ++ [TRm e [(k, v)] []; TAdd e [(k, v)]]) = Some s /\ In (k, v) (cur_pairs s e).
+Proof.
+  intros g ops e k v Hok Hv.
+  destruct (C24_walk_terminates g (ops ++ [TRm e [(k, v)] []; TAdd e [(k, v)]])) as [s H]. exists s.
+  split; [assumption|].
+  assert (ok_for g (ops ++ [TRm e [(k, v)] []; TAdd e [(k, v)]])) as Ok.
+  { apply Forall_app. split; [assumption|]. constructor; [|constructor; [|constructor]]; simpl.
+    - destruct Hv as [->|Hv]; [reflexivity|]. destruct v; [congruence|]. apply orb_true_r.
+    - apply orb_true_r. }
+  apply (C24_refines_set g _ s Ok H). unfold spec_run. rewrite fold_left_app. simpl.
+  rewrite !Nat.eqb_refl. simpl. assert (jval_eqb v v = true) as -> by now apply jval_eqb_eq. reflexivity.
+Qed.
+
+(** Bounded part: in the repaired variant get_tags never lists a pair twice, for every history of at
+    most 4 commands over the 30-command alphabet [alphabet] (2 entities, 2 keys, values null/1/2, single
+    pairs, bare keys, the same pair twice, two values of one key, two keys at once); by exhaustive
+    evaluation inside Coq (810 000 histories, prefix sharing). *)
 Definition in_scope (ops : list op) : Prop := length ops <= 4 /\ Forall (fun o => In o alphabet) ops.
-
-Lemma spec_has_In Sp e k v : spec_has Sp e k v = true <-> In (e, k, v) Sp.
+Theorem C24_listing_nodup_fixed_bounded : forall ops, in_scope ops ->
+  exists s, run fixed init ops = Some s /\ forall e, In e sw_ents -> NoDup (cur_pairs s e).
 Proof.
-  unfold spec_has. rewrite existsb_exists. split.
-  - intros [[[e' k'] v'] [H1 H2]]. apply andb_true_iff in H2. destruct H2 as [H2 H3].
-    apply andb_true_iff in H2. destruct H2 as [H2 H4]. apply Nat.eqb_eq in H2, H4. apply jval_eqb_eq in H3. now subst.
-  - intros H. exists (e, k, v). split; [assumption|]. rewrite !Nat.eqb_refl. simpl. now apply jval_eqb_eq.
+  intros ops [Hl Ha]. destruct (sweep_sound fixed true 4 init [] sweep_fixed_4 ops Hl) as [s [H1 [_ H3]]].
+  { rewrite Forall_forall in *. intros o Ho. split; [auto|]. destruct o; reflexivity. }
+  exists s. split; [assumption|]. intros e He.
+  destruct (agreeb_sound true s _ H3 e He 0 VNull) as [_ [_ C]]. now apply C.
 Qed.
 
-Lemma pair_in_In l k v : pair_in l k v = true <-> In (k, v) l.
-Proof.
-  unfold pair_in. rewrite existsb_exists. split.
-  - intros [[k' v'] [H1 H2]]. simpl in H2. apply andb_true_iff in H2. destruct H2 as [H2 H3].
-    apply Nat.eqb_eq in H2. apply jval_eqb_eq in H3. now subst.
-  - intros H. exists (k, v). split; [assumption|]. simpl. rewrite Nat.eqb_refl. simpl. now apply jval_eqb_eq.
-Qed.
-
-Lemma refines_of_sweep g strict : sweep g strict 4 init [] = true ->
-  forall ops, in_scope ops -> ok_for g ops ->
-  exists s, run g init ops = Some s /\ run_log g init ops = repeat 0 (length ops) /\
-    forall e, In e sw_ents ->
-      (forall k v, In (k, v) (cur_pairs s e) <-> spec_has (spec_run ops) e k v = true) /\
-      (strict = true -> NoDup (cur_pairs s e)).
-Proof.
-  intros Hs ops [Hl Ha] Hok.
-  destruct (sweep_sound g strict 4 init [] Hs ops Hl) as [s [H1 [H2 H3]]].
-  { unfold ok_for in Hok. rewrite Forall_forall in *. intros o Ho. split; auto. }
-  exists s. split; [assumption|]. split; [assumption|]. intros e He. split.
-  - intros k v. destruct (agreeb_sound strict s _ H3 e He k v) as [A [B _]]. split; [exact A|].
-    intros H. apply spec_has_In in H. apply B in H. now apply pair_in_In.
-  - destruct (agreeb_sound strict s _ H3 e He 0 VNull) as [_ [_ C]]. exact C.
-Qed.
-
-(** Refinement to the key-value model, repaired variant: for EVERY history of at most 4 commands
-    over the 30-command alphabet [alphabet] (2 entities, 2 keys, values null/1/2, single pairs, bare
-    keys, the same pair twice, two values of one key, two keys at once) no command fails, the current
-    tags of each entity are exactly the pairs of the model, and no pair is listed twice.
-    Bound: 4 commands, by exhaustive evaluation inside Coq (810 000 histories, prefix sharing). *)
-Theorem C24_refines_set_fixed_bounded : forall ops, in_scope ops ->
-  exists s, run fixed init ops = Some s /\ run_log fixed init ops = repeat 0 (length ops) /\
-    forall e, In e sw_ents ->
-      (forall k v, In (k, v) (cur_pairs s e) <-> spec_has (spec_run ops) e k v = true) /\
-      NoDup (cur_pairs s e).
-Proof.
-  intros ops Hs. destruct (refines_of_sweep fixed true sweep_fixed_4 ops Hs) as [s [A [B C]]].
-  - apply Forall_forall. intros [? ?|? ?|? ? ?] _; reflexivity.
-  - exists s. repeat split; try assumption; destruct (C e H); auto. now apply H0. now apply H0.
-Qed.
-
-(** The same as shipped, for the histories that avoid the two failing commands ([ok_for]); the
-    listing may repeat a pair (see [C24_dup_listing_refuted]), the *set* of current pairs is right. *)
-Theorem C24_refines_set_shipped_bounded_partial : forall ops, in_scope ops -> ok_for shipped ops ->
-  exists s, run shipped init ops = Some s /\ run_log shipped init ops = repeat 0 (length ops) /\
-    forall e, In e sw_ents ->
-      forall k v, In (k, v) (cur_pairs s e) <-> spec_has (spec_run ops) e k v = true.
-Proof.
-  intros ops Hs Hok. destruct (refines_of_sweep shipped false sweep_shipped_4 ops Hs Hok) as [s [A [B C]]].
-  exists s. repeat split; try assumption; destruct (C e H) as [D _]; now apply D.
-Qed.
-
-(* NOT PROVED (unbounded form of the two theorems above):
-     forall g ops s, ok_for g ops -> run g init ops = Some s ->
-       forall e k v, In (k, v) (cur_pairs s e) <-> spec_has (spec_run ops) e k v = true
-   and, for g = fixed, NoDup (cur_pairs s e).
-   The invariant needed is known (TagEdit = parent lists; a row is superseded iff it is not current;
-   parents of every row are not current; see the note at the end of Proofs/TagsInv.v); the induction
-   over record_tags was not completed in the time available.  The correspondence run and the
-   implementation oracle test the same statement on longer histories and larger alphabets. *)
-
-(** Re-adding a deleted pair makes it current again (both variants; any prefix of 2 commands). *)
-Theorem C24_readd_after_delete : forall g, g = shipped \/ g = fixed ->
-  forall ops k v, length ops <= 2 -> Forall (fun o => In o alphabet) ops -> ok_for g ops ->
-  In k [0; 1] -> In v [VJ 1; VJ 2] ->
-  exists s, run g init (ops ++ [TRm 0 [(k, v)] []; TAdd 0 [(k, v)]]) = Some s /\ In (k, v) (cur_pairs s 0).
-Proof.
-  intros g Hg ops k v Hl Ha Hok Hk Hv.
-  assert (In (TRm 0 [(k, v)] []) alphabet /\ In (TAdd 0 [(k, v)]) alphabet) as [I1 I2].
-  { simpl in Hk, Hv. destruct Hk as [<-|[<-|[]]], Hv as [<-|[<-|[]]]; split; vm_compute; tauto. }
-  assert (in_scope (ops ++ [TRm 0 [(k, v)] []; TAdd 0 [(k, v)]])) as Sc.
-  { split; [rewrite app_length; simpl; lia|]. apply Forall_app. split; [assumption|]. constructor; [assumption|]. constructor; [assumption|constructor]. }
-  assert (ok_for g (ops ++ [TRm 0 [(k, v)] []; TAdd 0 [(k, v)]])) as Ok.
-  { apply Forall_app. split; [assumption|].
-    simpl in Hv. destruct Hg as [-> | ->], Hv as [<-|[<-|[]]]; repeat constructor. }
-  assert (forall s, (forall k' v', In (k', v') (cur_pairs s 0) <->
-                      spec_has (spec_run (ops ++ [TRm 0 [(k, v)] []; TAdd 0 [(k, v)]])) 0 k' v' = true) ->
-                    In (k, v) (cur_pairs s 0)) as Fin.
-  { intros s H. apply H. unfold spec_run. rewrite fold_left_app. simpl. rewrite Nat.eqb_refl. simpl.
-    assert (jval_eqb v v = true) as -> by now apply jval_eqb_eq. reflexivity. }
-  destruct Hg as [-> | ->].
-  - destruct (C24_refines_set_shipped_bounded_partial _ Sc Ok) as [s [A [_ C]]]. exists s. split; [assumption|].
-    apply Fin. apply C. simpl. tauto.
-  - destruct (C24_refines_set_fixed_bounded _ Sc) as [s [A [_ C]]]. exists s. split; [assumption|].
-    apply Fin. apply C. simpl. tauto.
-Qed.
+(* NOT PROVED (unbounded form of the last theorem): forall ops s e, run fixed init ops = Some s ->
+   NoDup (cur_pairs s e).  It needs one more invariant (at most one current row per content, kept when
+   record_tags skips pairs that are already current); the implementation oracle checks it on every run. *)
 
 (** As shipped the listing is not a set: after `add k=1; update k=2; add k=2` get_tags lists k=2
     twice (the pair is current on the version made by update and on a fresh parentless version). *)
@@ -169,8 +156,11 @@ Qed.
 
 Print Assumptions C24_edit_graph_acyclic.
 Print Assumptions C24_walk_terminates.
-Print Assumptions C24_refines_set_fixed_bounded.
-Print Assumptions C24_refines_set_shipped_bounded_partial.
+Print Assumptions C24_current_iff_not_superseded.
+Print Assumptions C24_refines_set.
+Print Assumptions C24_refines_set_fixed.
+Print Assumptions C24_refines_set_shipped_partial.
+Print Assumptions C24_listing_nodup_fixed_bounded.
 Print Assumptions C24_readd_after_delete.
 Print Assumptions C24_dup_listing_refuted.
 Print Assumptions C24_null_delete_refuted.
